@@ -230,7 +230,15 @@ func judge(p *plan, pre preState, s *sessLog) *verdict {
 				return finish(v, p, pre, s, first)
 			}
 			if !p.onCurrent(pre.PosID, pre.Pos) {
-				v.add("continued-from-position-off-current-history"+ctx,
+				sig := "continued-from-position-off-current-history"
+				for _, e := range s.Psync {
+					if !e.Continue && e.Stamp < s.Stamps[i] {
+						// a full resynchronisation had been granted in this very reconnect and was given up
+						sig += "|after-abandoned-fullresync"
+						break
+					}
+				}
+				v.add(sig+ctx,
 					"stored position (%s,%d) is not on the current history (id %s, previous id %s valid up to %d) yet the stream was continued: first applied %s",
 					short(pre.PosID), pre.Pos, short(h.ReplID), short(p.SrcID2), p.S, a.String())
 				return finish(v, p, pre, s, first)
